@@ -575,7 +575,7 @@ class Hang(Exception):
 
 
 def _alarm(*a):
-    raise Hang('no result after %d s' % LIMIT)
+    raise Hang('no result within the time limit')
 
 
 LIMIT = 20
@@ -593,9 +593,9 @@ def limit(seconds=LIMIT):
         signal.signal(signal.SIGALRM, old)
 
 
-def api_case(c, cases, errors):
+def api_case(c, cases, errors, seconds=LIMIT):
     try:
-        with limit():
+        with limit(seconds):
             wav, adj = run_api(c)
         cases.append(slim(c, wav, adj, 'api'))
     except Exception as e:
@@ -609,7 +609,7 @@ def work(job):
     cases, errors = [], []
     if wi == 0:
         probe = dict(HANG_PROBE, cfg=effective(0, HANG_PROBE['over']))
-        api_case(probe, cases, errors)
+        api_case(probe, cases, errors, 4)
     for i in range(nb):
         api_case(gen_beeper(rng, i), cases, errors)
     for i in range(na):
